@@ -151,16 +151,17 @@ def gen_pairs(rng, w: int, s: int, n_random: int, lite: bool = False):
 
 
 def sci_pairs(rng, w: int, s: int, n: int, allow_float: bool):
-    """operands in exponent notation: 1-3 mantissa digits, exponents from far below the scale up to small positive ones"""
+    """operands in exponent notation: 1-3 mantissa digits (0-2 of them decimals), exponents from far below the scale up to
+    small positive ones"""
     P = []
     for _ in range(n):
         def sv():
             M = rng.choice((1, -1)) * rng.choice([rng.randint(1, 9), rng.randint(10, 99), rng.randint(100, 999), 5, 49, 51, 9])
+            d = rng.randint(0, len(str(abs(M))) - 1) if rng.random() < 0.7 else 0
             x = rng.choice([-(s + rng.randint(1, 25)), -(s + 1), -s, -(s - 1), -(s + 2), -rng.randint(0, s), rng.randint(0, max(0, min(3, w - s - 4)))])
-            form = "float" if (allow_float and rng.random() < 0.5) else "text"
-            if form == "float":
-                return float_lit(float(f"{M}e{x}"))
-            return ("sci", M, x, form)
+            if allow_float and rng.random() < 0.5:
+                return float_lit(float(f"{dstr(M, d)}e{x}"))
+            return ("sci", M, d, x, "text")
         P.append(("sci", sv(), sv()))
     return P
 
@@ -172,24 +173,29 @@ def float_lit(v: float):
     sign, digits, exp = Decimal(r).as_tuple()
     m = int("".join(map(str, digits))) * (-1 if sign else 1)
     if "e" in r:
-        return ("sci", m, exp, "float")
+        d = len(digits) - 1
+        return ("sci", m, d, exp + d, "float")
     return ("plain", m * 10 ** exp, 0, "float") if exp >= 0 else ("plain", m, -exp, "float")
 
 
 def lit_value(op) -> Fraction:
-    return Fraction(op[1]) / Fraction(10) ** op[2] if op[0] == "plain" else Fraction(op[1]) * Fraction(10) ** op[2]
+    if op[0] == "plain":
+        return Fraction(op[1]) / Fraction(10) ** op[2]
+    return Fraction(op[1]) * Fraction(10) ** (op[3] - op[2])
 
 
 def lit_raw(op):
     """what is handed to the engine: decimal text, exponent-notation text, or a Python float"""
-    if len(op) > 3 and op[3] == "float":
+    if op[-1] == "float":
         return ["float", float(lit_value(op))]
-    return dstr(op[1], op[2]) if op[0] == "plain" else f"{op[1]}e{op[2]}"
+    return dstr(op[1], op[2]) if op[0] == "plain" else f"{dstr(op[1], op[2])}e{op[3]}"
 
 
 def lit_coq(op) -> str:
     from common import coq_z
-    return f"({'Plain' if op[0] == 'plain' else 'Sci'} {coq_z(op[1])} {coq_z(op[2])})"
+    if op[0] == "plain":
+        return f"(Plain {coq_z(op[1])} {coq_z(op[2])})"
+    return f"(Sci {coq_z(op[1])} {coq_z(op[2])} {coq_z(op[3])})"
 
 
 FLOATS = [1.5, -2.25, 0.1, 123456.789, -0.000125, 3.0, 0.5, 1e-4]
@@ -214,7 +220,7 @@ def outcome_term(o):
     return f"(CfgOk {coq_z(o[1])} {coq_z(o[2])})"
 
 
-def case_expr(sub, oterm, a, b, f="engine_to_scale"):
+def case_expr(sub, oterm, a, b, f="engine_load"):
     return f"binop_case_lit {f} {'true' if sub else 'false'} {oterm} {lit_coq(a)} {lit_coq(b)}"
 
 
@@ -286,8 +292,16 @@ def run(ctx):
     rng = ctx.rng
     n_random = 6 if quick else 20
 
-    # ------------------------------------------------------------------ plans
+    # ------------------------------------------------------------------ plans (corpus first)
     plans = []
+    cdir = common.CORPUS / "C30"
+    for f in sorted(cdir.glob("*.json")) if cdir.exists() else []:
+        cj = json.loads(f.read_text())
+        p = Plan("corpus:" + f.stem, False)
+        p.steps = [{"ew": stp.get("ew"), "es": stp.get("es"), "path": stp.get("path", "df"),
+                    "given": [(t, tuple(a), tuple(b)) for t, a, b in stp.get("pairs", [])]} for stp in cj["steps"]]
+        plans.append(p)
+    ctx.cov["corpus_plans"] = len(plans)
     for var in ("w", "s"):
         for k in range(LO, HI + 1):
             p = Plan(f"fresh:{var}={k}", True)
@@ -298,7 +312,7 @@ def run(ctx):
     p.steps = [{"ew": None, "es": None, "path": "df"}, {"ew": None, "es": None, "path": "csv"}]
     plans.append(p)
     joint = set()
-    n_joint = 20 if quick else 600
+    n_joint = 16 if quick else 600
     while len(joint) < n_joint:
         joint.add((rng.randint(LO, HI), rng.randint(LO, HI)))
     for cw, cs in [(6, 6), (38, 15), (-1, -1), (15, 15), (14, 15), (6, 10), (10, 10), (39, 6), (38, 16), (5, 5)]:
@@ -344,20 +358,36 @@ def run(ctx):
             if isinstance(m, tuple) and m[0] == "CfgOk":
                 w, s = m[1], m[2]
                 lite = not (p.fresh and si == 0)
-                pairs = [(t, ("plain", a[0], a[1]), ("plain", b[0], b[1])) for t, a, b in gen_pairs(rng, w, s, 1 if lite else n_random, lite=lite)]
+                if st.get("given"):
+                    pairs = list(st["given"])
+                    st["pairs"] = pairs
+                    for ci, (tag, a, b) in enumerate(pairs):
+                        for sub in (False, True):
+                            exprs.append(case_expr(sub, outcome_term(m), a, b))
+                            index.append((pi, si, ci, sub))
+                            if a[0] == "sci" or b[0] == "sci":
+                                spec_exprs2.append(case_expr(sub, outcome_term(m), a, b, "documented_load"))
+                                spec_index.append((pi, si, ci, sub))
+                    continue
+                pairs = [(t, ("plain", a[0], a[1], "text"), ("plain", b[0], b[1], "text")) for t, a, b in gen_pairs(rng, w, s, 1 if lite else n_random, lite=lite)]
                 pairs += sci_pairs(rng, w, s, 1 if lite else 4, allow_float=st["path"] == "df")
+                if p.name == "fresh:unset":
+                    zero = ("plain", 0, 0, "float" if st["path"] == "df" else "text")
+                    for v in (5e-30, -7e-20, 9e-12, 4.9e-12, 6.5e-05):
+                        fl = float_lit(v)
+                        pairs.append(("sci-directed", fl if st["path"] == "df" else fl[:-1] + ("text",), zero))
                 if st["path"] == "df" and not lite:
                     for _ in range(2):
                         pairs.append(("float", float_lit(rng.choice(FLOATS)), float_lit(rng.choice(FLOATS))))
             else:
-                pairs = [("probe", ("plain", 15, 1), ("plain", 225, 2))]
+                pairs = [("probe", ("plain", 15, 1, "text"), ("plain", 225, 2, "text"))]
             st["pairs"] = pairs
             for ci, (tag, a, b) in enumerate(pairs):
                 for sub in (False, True):
                     exprs.append(case_expr(sub, outcome_term(m), a, b))
                     index.append((pi, si, ci, sub))
                     if a[0] == "sci" or b[0] == "sci":
-                        spec_exprs2.append(case_expr(sub, outcome_term(m), a, b, "documented_to_scale"))
+                        spec_exprs2.append(case_expr(sub, outcome_term(m), a, b, "documented_load"))
                         spec_index.append((pi, si, ci, sub))
     ctx.log(f"K: {len(plans)} engine processes, {sum(len(p.steps) for p in plans)} run() configurations, {len(exprs)} model cases")
     vals = coq_eval(HEADER, exprs, "c30case", shard=500)
@@ -417,10 +447,13 @@ def run(ctx):
     n_exact = n_ulp = n_loadrej = n_over = 0
     max_ulps = 0.0
     fresh_outcome = {}
+    n_silent = [0]
 
     def note(key, what, rep):
-        if key not in findings:
-            findings[key] = [what, rep, 0]
+        """keeps one example per finding key: the first one, replaced by a later one only if that runs under the default environment"""
+        simple = all(not stp["env"] for stp in rep.get("steps", [{"env": 1}]))
+        if key not in findings or (simple and not findings[key][3]):
+            findings[key] = [what, rep, findings[key][2] if key in findings else 0, simple]
         findings[key][2] += 1
 
     for pi, (p, res) in enumerate(zip(plans, results)):
@@ -463,9 +496,8 @@ def run(ctx):
                                 max_ulps = max(max_ulps, ulps)
                             sc = spec_case.get((pi, si, ci, sub))
                             if okc and sc is not None and sc != mc and isinstance(sc, tuple) and sc[0] == "OValue":
-                                bad = [x for x in (ra, rb) if (isinstance(x, list) and "e" in repr(x[1])) or (isinstance(x, str) and "e" in x)]
-                                note("exponent-notation-input-misrounded",
-                                     f"under DECIMAL({w},{s}) the input {bad[0] if bad else ra} (exponent notation) is not stored rounded to {s} decimals: "
+                                note("exponent-notation-input-mishandled",
+                                     f"under DECIMAL({w},{s}) an input written in exponent notation is not stored rounded to {s} decimals: "
                                      f"{ra} {op} {rb} returns {float.fromhex(er['vals'][op][str(ci)])!r}, exact decimal arithmetic at scale {s} gives "
                                      f"{sc[2]}/10^{s} (DuckDB's VARCHAR->DECIMAL cast rounds on the leading mantissa digit when more digits are dropped "
                                      f"than the mantissa has; floats below 1e-4 take that path through CAST(CAST(col AS VARCHAR) AS DECIMAL))",
@@ -478,6 +510,15 @@ def run(ctx):
                         elif mc == "OLoadReject":
                             n_loadrej += 1
                             step_classes.add("OK")
+                            sc = spec_case.get((pi, si, ci, sub))
+                            if ecls == "LoadReject" and isinstance(sc, tuple) and sc[0] == "OValue":
+                                note("exponent-notation-input-mishandled",
+                                     f"under DECIMAL({w},{s}) an input written in exponent notation that fits the precision is rejected: {ra} {op} {rb} raises "
+                                     f"DataLoadError 0-3-1-6 ({er['msg'][-120:]}); exact decimal arithmetic at scale {s} gives {sc[2]}/10^{s} (DuckDB's "
+                                     f"VARCHAR->DECIMAL cast demands that the mantissa alone fits w-s integer digits)",
+                                     {"steps": [{"env": {k: v for k, v in ((WVAR, st['ew']), (SVAR, st['es'])) if v is not None},
+                                                 "runs": [{"rows": [[ci, ra, rb]], "ops": [op], "path": r["path"]}]}],
+                                      "expected": f"{sc[2]}/10^{s}", "observed": er["err"]})
                             if ecls != "LoadReject":
                                 mismatches.append((p.name, si, envd, f"{ra} {op} {rb} under DECIMAL({w},{s}): model rejects the input, engine {ecls} "
                                                    f"{er.get('vals', er.get('msg'))}"))
@@ -526,6 +567,18 @@ def run(ctx):
                          {"steps": rep_steps, "expected": "accepted, or RunTimeError 0-4-1-1", "observed": str(ecl)})
             if not p.fresh:
                 st["engine_class"] = ecl if not (ecl in ("OK", "LoadReject", "Overflow")) else "ACCEPTED"
+                sp = st["spec"]
+                if (mcls == "CfgOk" and isinstance(sp, tuple) and sp[0] == "CfgOk" and tuple(sp[1:]) != tuple(m[1:]) and st["engine_class"] == "ACCEPTED"
+                        and sres["runs"] and sres["runs"][-1]["globals"] == [m[1], m[2]] and not any(x[0] == p.name and x[1] == si for x in mismatches)):
+                    n_silent[0] += 1
+                    prev = p.steps[si - 1] if si else None
+                    note("sticky-decimal-globals",
+                         f"the precision used by run() depends on earlier runs in the process: with {WVAR}={st['ew']} {SVAR}={st['es']} the documentation gives "
+                         f"DECIMAL({sp[1]},{sp[2]}), but after a run with {WVAR}={prev and prev['ew']} {SVAR}={prev and prev['es']} the engine loads, rounds and "
+                         f"rejects Numbers as DECIMAL({m[1]},{m[2]}) (the values generated for that type behave as the model predicts)",
+                         {"steps": [{"env": {k: v for k, v in ((WVAR, q['ew']), (SVAR, q['es'])) if v is not None},
+                                     "runs": [{"rows": [[0, "1.5", "2.25"]], "ops": ["+"], "path": "df"}]} for q in ([prev] if prev else []) + [st]],
+                          "expected": f"globals after the last run = ({sp[1]}, {sp[2]})", "observed": f"({m[1]}, {m[2]})"})
     # history independence: a step of a sequence must behave as the same environment does in a fresh process
     for p in plans:
         if p.fresh:
@@ -555,6 +608,7 @@ def run(ctx):
     ctx.cov["inputs_rejected_as_beyond_precision"] = n_loadrej
     ctx.cov["overflow_cases_at_widths_18_38"] = n_over
     ctx.cov["engine_processes"] = len(plans)
+    ctx.cov["sequence_steps_silently_using_an_earlier_precision"] = n_silent[0]
     for pmm in mismatches[:3]:
         ctx.sample({"mismatch": pmm})
     for p in plans[:2]:
@@ -566,7 +620,7 @@ def run(ctx):
     for a, b, c, d_ in mismatches[:10]:
         ctx.violation(f"model-mismatch:{a}:{b}", f"engine and faithful model disagree in {a} step {b} env {c}: {d_}",
                       {"plan": a, "step": b, "env": c, "detail": d_})
-    for key, (what, rep, n) in sorted(findings.items()):
+    for key, (what, rep, n, _simple) in sorted(findings.items()):
         ctx.log(f"finding {key}: {n} occurrences; first: {what[:200]}")
         ctx.violation(key, what, rep)
     ctx.log(f"K: exact {n_exact}, within {ULP_TOL} ulp {n_ulp} (max {max_ulps:.2f}), load rejections {n_loadrej}, overflow {n_over}, "
